@@ -25,18 +25,21 @@ package store
 //@ ghost field loglen int
 //@ ghost field nonce map[string]int
 
+// plainError: the error (if any) is not one of the typed errors the pool and payment layers give a meaning to
+//@ pure plainError(err error) bool = !typeis(err, balance.LowBalanceError) && !typeis(err, pool.VerifyFailedError) && !typeis(err, payment.WithdrawBalanceMinimumError)
+
 //@ pure spendable(s BalanceStore, id NodeID) int = s.credit[s.cell[id]] + s.deposit[s.cell[id]]
 
 //@ interface store.BalanceStore.GetNodeBalance(nodeID) (result, err)
 //@ ensures [unreg]   !this.reg[nodeID] ==> err == ErrUnregisteredNode
-//@ ensures [errkind] !typeis(err, balance.LowBalanceError)
+//@ ensures [errkind] plainError(err)
 //@ ensures [value]   err == nil ==> bigval(result.Credit) == this.credit[this.cell[nodeID]] && bigval(result.Deposit) == this.deposit[this.cell[nodeID]]
 //@ modifies nothing
 
 //@ interface store.BalanceStore.AddNodeBalance(nodeID, credit) (err)
 //@ requires credit != nil
 //@ ensures [unreg]   !old(this.reg[nodeID]) ==> err == ErrUnregisteredNode
-//@ ensures [errkind] !typeis(err, balance.LowBalanceError)
+//@ ensures [errkind] plainError(err)
 //@ ensures [ok]      err == nil ==> this.credit == upd(old(this.credit), this.cell[nodeID], old(this.credit)[this.cell[nodeID]] + bigval(credit))
 //@                                  && this.total == old(this.total) + bigval(credit)
 //@                                  && this.loglen == old(this.loglen) + 1
@@ -55,45 +58,45 @@ package store
 //@ interface store.NonceStore.CheckAndSaveNonce(ID, nonce) (err)
 //@ ensures [accept]  err == nil ==> old(this.nonce[ID]) < nonce && this.nonce == upd(old(this.nonce), ID, nonce) && effects == old(effects) + 1
 //@ ensures [reject]  err != nil ==> this.nonce == old(this.nonce) && effects == old(effects)
-//@ ensures [errkind] !typeis(err, balance.LowBalanceError) && !typeis(err, pool.VerifyFailedError)
+//@ ensures [errkind] plainError(err)
 //@ defines [nonce-ok]   err == nil ==> nonceOK && nonceID == ID && nonceVal == nonce
 //@ defines [nonce-fail] err != nil ==> nonceOK == old(nonceOK) && nonceID == old(nonceID) && nonceVal == old(nonceVal)
 //@ modifies this.nonce, effects, nonceOK, nonceID, nonceVal
 
 //@ interface store.PoolStore.SetNode(n) (err)
 //@ ensures [effect]  effects >= old(effects) && (err != nil ==> effects == old(effects))
-//@ ensures [errkind] !typeis(err, balance.LowBalanceError) && !typeis(err, pool.VerifyFailedError)
+//@ ensures [errkind] plainError(err)
 //@ modifies effects, this.reg
 
 //@ interface store.PoolStore.GetNode(id) (result, err)
-//@ ensures [errkind] !typeis(err, balance.LowBalanceError) && !typeis(err, pool.VerifyFailedError)
+//@ ensures [errkind] plainError(err)
 //@ ensures [found]   err == nil ==> result != nil && result.ID == id
 //@ ensures [missing] err != nil ==> result == nil
 //@ modifies nothing
 
 //@ interface store.PoolStore.UpdateNodePeers(nodeID, peers, blockNumber) (inactive, err)
 //@ ensures [effect]  effects >= old(effects) && (err != nil ==> effects == old(effects))
-//@ ensures [errkind] !typeis(err, balance.LowBalanceError) && !typeis(err, pool.VerifyFailedError)
+//@ ensures [errkind] plainError(err)
 //@ modifies effects
 
 //@ interface store.PoolStore.NodePeers(nodeID) (result, err)
-//@ ensures [errkind] !typeis(err, balance.LowBalanceError) && !typeis(err, pool.VerifyFailedError)
+//@ ensures [errkind] plainError(err)
 //@ modifies nothing
 
 //@ interface store.PoolStore.ActiveHosts(kind, limit) (result, err)
 //@ requires limit >= 0
-//@ ensures [errkind] !typeis(err, balance.LowBalanceError) && !typeis(err, pool.VerifyFailedError)
+//@ ensures [errkind] plainError(err)
 //@ ensures [limit]   err == nil && limit > 0 ==> len(result) <= limit
 //@ modifies nothing
 
 //@ interface store.BalanceStore.GetAccountBalance(account) (result, err)
-//@ ensures [errkind] !typeis(err, balance.LowBalanceError) && !typeis(err, pool.VerifyFailedError)
+//@ ensures [errkind] plainError(err)
 //@ ensures [value]   err == nil ==> bigval(result.Credit) == this.credit[string(account)] && bigval(result.Deposit) == this.deposit[string(account)]
 //@ modifies nothing
 
 //@ interface store.BalanceStore.AddAccountBalance(account, credit) (err)
 //@ requires credit != nil
-//@ ensures [errkind] !typeis(err, balance.LowBalanceError) && !typeis(err, pool.VerifyFailedError)
+//@ ensures [errkind] plainError(err)
 //@ ensures [ok]      err == nil ==> this.credit == upd(old(this.credit), string(account), old(this.credit)[string(account)] + bigval(credit))
 //@                                  && this.total == old(this.total) + bigval(credit)
 //@                                  && this.loglen == old(this.loglen) + 1 && effects == old(effects) + 1
@@ -101,7 +104,7 @@ package store
 //@ modifies this.credit, this.total, this.loglen, effects
 
 //@ interface store.AccountStore.AddAccountNode(account, nodeID) (err)
-//@ ensures [errkind]  !typeis(err, balance.LowBalanceError) && !typeis(err, pool.VerifyFailedError)
+//@ ensures [errkind]  plainError(err)
 //@ ensures [zero-sum] this.total == old(this.total)
 //@ ensures [effect]   effects >= old(effects) && (err != nil ==> effects == old(effects) && this.credit == old(this.credit) && this.cell == old(this.cell))
 //@ modifies this.credit, this.cell, effects
